@@ -75,8 +75,7 @@ def install_natives(m):
         return r
 
     def memcmp(mach, a, b, n):
-        if not isinstance(n, int):
-            raise EngineLimit("memcmp with symbolic length")
+        n = llsym.small_int(n, 256)
         return lexcmp([mach.readbyte(a + i) for i in range(n)], [mach.readbyte(b + i) for i in range(n)], 0)
 
     def str_compare_cstr(mach, this, cstr):
